@@ -403,6 +403,8 @@ class GVal:
     def transposed(self, perm):
         """np.transpose of a value: the generic positions are named after the position of their axis from the right, so the
         position variables (in index symbols, atoms and recorded reads) are renamed along with the axes"""
+        if perm is None:
+            perm = tuple(range(self.data.ndim))[::-1]
         perm = tuple(int(x) for x in perm)
         nd = self.data.ndim
         if sorted(perm) != list(range(nd)):
@@ -427,6 +429,23 @@ class GVal:
             fin = {v: "p" + v[1:] for v in ren.values()}
             data, reads = _rename_positions(data, reads, fin)
         return GVal(data, sym, reads)
+
+    # method spellings of what GNp understands as functions
+    @property
+    def T(self):
+        return self.transposed(None)
+
+    def transpose(self, *axes):
+        if len(axes) == 1 and (axes[0] is None or isinstance(axes[0], (tuple, list))):
+            axes = axes[0]
+        return self.transposed(axes if axes else None)
+
+    def copy(self):
+        return GVal(self.data.copy(), {k: list(v) for k, v in self.sym.items()}, list(self.reads))
+
+    @property
+    def ndim(self):
+        return self.data.ndim
 
     def map(self, f):
         out = _np.empty(self.data.shape, dtype=object)
@@ -602,6 +621,8 @@ class GArray:
 
     def transposed(self, perm):
         """np.transpose of the table: a second name for the same table with its axes in another order"""
+        if perm is None:
+            perm = tuple(range(len(self.layout)))[::-1]
         perm = tuple(int(x) for x in perm)
         if sorted(perm) != list(range(len(self.layout))):
             raise alg.Undecided("transpose with an invalid permutation %r" % (perm,))
@@ -935,6 +956,32 @@ class GNp:
         if isinstance(x, (GArray, GVal)):
             return x.transposed(axes)
         return self._p.transpose(x, axes)
+
+    @staticmethod
+    def _ndim(x):
+        return len(x.layout) if isinstance(x, GArray) else x.data.ndim
+
+    def moveaxis(self, x, source, destination):
+        if isinstance(x, (GArray, GVal)):
+            nd = self._ndim(x)
+            src = [int(a) % nd for a in (source if isinstance(source, (tuple, list)) else [source])]
+            dst = [int(a) % nd for a in (destination if isinstance(destination, (tuple, list)) else [destination])]
+            if len(src) != len(dst) or len(set(src)) != len(src) or len(set(dst)) != len(dst):
+                raise ValueError("`source` and `destination` arguments must have the same number of distinct elements")
+            order = [a for a in range(nd) if a not in src]
+            for d_, s_ in sorted(zip(dst, src)):
+                order.insert(d_, s_)
+            return x.transposed(order)
+        return self._p.moveaxis(x, source, destination)
+
+    def swapaxes(self, x, a, b):
+        if isinstance(x, (GArray, GVal)):
+            nd = self._ndim(x)
+            order = list(range(nd))
+            a, b = int(a) % nd, int(b) % nd
+            order[a], order[b] = order[b], order[a]
+            return x.transposed(order)
+        return self._p.swapaxes(x, a, b)
 
     def arange(self, n, *a, **k):
         if isinstance(n, Aff) and not a:
